@@ -6,7 +6,7 @@
    QuoInteger/Rem: Properties/C10.v.  Quo, Quantize, Sqrt: oracle + correspondence only. *)
 From Coq Require Import ZArith Bool.
 From Apd Require Import Generated.Consts Model.Base Model.NumDigits Model.Decimal Model.Context Spec.SpecZ
-  Proofs.Core Proofs.SetExponent Proofs.RoundSpec Proofs.OpsProofs Proofs.OpsProjections.
+  Proofs.Core Proofs.SetExponent Proofs.RoundSpec Proofs.OpsProofs Proofs.QuoProofs Proofs.SeRoundProofs Proofs.OpsProjections.
 Open Scope Z_scope.
 
 Theorem C02_round est : est_in_range est -> forall c (x : dec), ctx_ok c -> finite_nn x -> exact_in_limits c (exact_of_dec x) ->
@@ -29,10 +29,12 @@ Theorem C02_add_sub est : est_in_range est -> forall c (x y : dec) (sub : bool),
 Proof. exact (c02_add_sub est). Qed.
 Print Assumptions C02_add_sub.
 
-Theorem C02_mul_normal_range_partial est : est_in_range est -> forall c (x y : dec), ctx_ok c -> finite_nn x -> finite_nn y -> in_lim (exp x) -> in_lim (exp y) -> exact_in_limits c (exact_mul x y) -> (xnum (exact_mul x y) = 0 \/ emin c <= xexp (exact_mul x y) + ndigits (xnum (exact_mul x y)) - 1 <= emax c) -> emin c <= xexp (exact_mul x y) <= emax c ->
+(* Mul: for EVERY pair of finite operands - the exact product in, above or below the context's exponent
+   range (below Emin setExponent rounds once to Etiny and the round that follows finds nothing left to do) *)
+Theorem C02_mul est : est_in_range est -> forall c (x y : dec), mul_hyps c x y ->
   exists d f, ctx_mul est c x y = Ok (finish c d f) /\ c02_post c (exact_mul x y) d f.
-Proof. exact (c02_mul_normal_range_partial est). Qed.
-Print Assumptions C02_mul_normal_range_partial.
+Proof. exact (c02_mul est). Qed.
+Print Assumptions C02_mul.
 
 (* Quo: for EVERY pair of finite operands with a non-zero divisor - any digit counts, any exponents, ties,
    all-nines carries, quotients in, above and below the normal range (where Quo keeps the remainder as a
